@@ -2,7 +2,9 @@ package main
 
 import (
 	"encoding/hex"
+	"encoding/json"
 	"os"
+	"strings"
 )
 
 func mutateBytes(r *Rng, b []byte) []byte {
@@ -51,11 +53,62 @@ func mutateBytes(r *Rng, b []byte) []byte {
 
 func runC09(ctx *Ctx) error {
 	ctx.ShardSize = 80
-	ctx.Imports = []string{"Gpmf.Klv"}
-	if done, err := replayGpmf(ctx); done || err != nil {
+	ctx.Imports = []string{"Gpmf.Klv", "Gpmf.Mp4", "Run.Gpmf_run", "Run.Run_C08"}
+	defer func() {
+		// reader cases are R, decoder cases are D
+		for i := range ctx.cases {
+			c := ctx.cases[i].Coq
+			switch {
+			case strings.HasPrefix(c, "(mkCase [") || strings.HasPrefix(c, "(mkCase (app") || strings.HasPrefix(c, "(mkCase (rep"):
+				if ctx.cases[i].Tags != nil && strings.HasPrefix(ctx.cases[i].Tags[0], "kind:hostile") || strings.Contains(c, "mkTables") {
+					ctx.cases[i].Coq = "(D (Run_C08.mkCase" + strings.TrimPrefix(c, "(mkCase") + ")"
+				} else {
+					ctx.cases[i].Coq = "(R (Gpmf_run.mkCase" + strings.TrimPrefix(c, "(mkCase") + ")"
+				}
+			}
+		}
+	}()
+	if raws, err := ctx.ReplayInputs(); err != nil {
 		return err
+	} else if raws != nil {
+		for _, raw := range raws {
+			var probe map[string]json.RawMessage
+			_ = json.Unmarshal(raw, &probe)
+			if _, ok := probe["tables"]; ok {
+				var in c08Input
+				if err := json.Unmarshal(raw, &in); err != nil {
+					return err
+				}
+				addC08Case(ctx, in)
+			} else {
+				var in gpmfInput
+				if err := json.Unmarshal(raw, &in); err != nil {
+					return err
+				}
+				addGpmfCase(ctx, in)
+			}
+		}
+		return nil
 	}
 	r := ctx.R
+	// decoder half: hostile sample tables and payload bytes inside an otherwise valid MP4
+	for i := 0; i < ctx.N(160, 6000); i++ {
+		p, t := genValidLayout(r, 5)
+		m := mutateTables(r, t)
+		if r.Chance(0.3) {
+			m = mutateTables(r, m)
+		}
+		if r.Chance(0.3) {
+			p = mutateBytes(r, p)
+		}
+		addC08Case(ctx, c08Input{hex.EncodeToString(p), m, false, "hostile-tables"})
+	}
+	// named decoder cases: zero timescale, zero-reading sensor element, empty and moov-less files are covered by D15/D12/D21 demos
+	{
+		p, t := genValidLayout(r, 2)
+		t.Timescale = 0
+		addC08Case(ctx, c08Input{hex.EncodeToString(p), t, false, "hostile-zero-timescale"})
+	}
 	n := ctx.N(500, 12000)
 	// named cases of the property statement
 	named := [][]byte{
